@@ -280,6 +280,8 @@ impl AbstractTree for Tree {
 
         // IMPORTANT: Write lock so no compaction is running, otherwise it would
         // try to install its result into a version that does not contain its input tables anymore
+        #[cfg(feature = "verif")]
+        crate::verif::probe_write(&self.0.major_compaction_lock, "tree/mod.rs:major_compaction_lock.write#clear");
         #[expect(clippy::expect_used, reason = "lock is expected to not be poisoned")]
         let _lock = self
             .0
